@@ -63,6 +63,25 @@ pub struct Clause {
 #[derive(Clone, Debug, Serialize, Deserialize)]
 pub struct Case {
     pub clauses: Vec<Clause>,
+    /// the text stops right after the body of the last clause (no end token, no newline):
+    /// end of file in the middle of a clause, possibly in the middle of a token
+    #[serde(default)]
+    pub cut_end: bool,
+}
+
+impl Case {
+    pub fn text(&self) -> String {
+        let mut s = String::new();
+        let last = self.clauses.len().saturating_sub(1);
+        for (i, cl) in self.clauses.iter().enumerate() {
+            if self.cut_end && i == last {
+                s.push_str(&cl.body());
+            } else {
+                s.push_str(&cl.text());
+            }
+        }
+        s
+    }
 }
 
 /// valid clause bodies in operator notation (no end token; none contains the atom end_of_file)
@@ -367,8 +386,12 @@ fn read_file_pass(s: &mut Session, path: &str, max: usize) -> Result<Vec<R>, Ver
 
 pub fn judge_case(s: &mut Session, c: &Case) -> Verdict {
     let bodies: Vec<String> = c.clauses.iter().map(|cl| cl.body()).collect();
-    let text: String = c.clauses.iter().map(|cl| cl.text()).collect();
+    let text: String = c.text();
     let mut valid: Vec<bool> = c.clauses.iter().map(|cl| cl.is_valid_source()).collect();
+    if c.cut_end {
+        // the last clause has no end token: malformed by construction
+        *valid.last_mut().unwrap() = false;
+    }
     let mut rejected_alone = false;
     let show = || format!("text {:?}", text);
 
@@ -508,6 +531,9 @@ pub fn judge_case(s: &mut Session, c: &Case) -> Verdict {
     if n_syn > 0 {
         classes.push("has-syntax-error");
     }
+    if c.cut_end {
+        classes.push("text-ends-inside-a-clause");
+    }
     if rejected_alone {
         classes.push("valid-source-rejected-when-read-alone");
     }
@@ -597,7 +623,7 @@ const CHILD_SHRINK_TIMEOUT_S: u64 = 20;
 fn run_in_child(c: &Case, timeout_s: u64) -> Verdict {
     let o = run_child("C17", "case", &serde_json::to_value(c).unwrap(), timeout_s, &[]);
     if o.timed_out {
-        return Verdict::fail("hang:read_term", format!("reading did not finish within {timeout_s} s in a process of its own; text {:?}", c.clauses.iter().map(|x| x.text()).collect::<String>()));
+        return Verdict::fail("hang:read_term", format!("reading did not finish within {timeout_s} s in a process of its own; text {:?}", c.text()));
     }
     if o.crashed() {
         let kind = if o.stack_overflow() { "stack-overflow".to_string() } else { format!("signal-{}", o.signal.unwrap_or(0)) };
@@ -707,7 +733,7 @@ fn clause_strategy() -> BoxedStrategy<Clause> {
 }
 
 pub fn case_strategy() -> BoxedStrategy<Case> {
-    proptest::collection::vec(clause_strategy(), 1..=4).prop_map(|clauses| Case { clauses }).boxed()
+    (proptest::collection::vec(clause_strategy(), 1..=4), 0u8..8).prop_map(|(clauses, cut)| Case { clauses, cut_end: cut == 0 }).boxed()
 }
 
 // ---------------------------------------------------------------------------------------------
@@ -737,7 +763,11 @@ impl Prop for C17 {
         d.finish()
     }
     fn replay(&self, _kind: &str, case: &Value) -> Verdict {
-        replay_case::<Case, Env>(case, &mk_env, &check)
+        let v = replay_case::<Case, Env>(case, &mk_env, &check);
+        WORKER.with(|w| *w.borrow_mut() = None);
+        std::thread::sleep(Duration::from_millis(50));
+        let _ = std::fs::remove_dir_all(PathBuf::from(verif_dir()).join("scratch").join(format!("c17-{}", std::process::id())));
+        v
     }
     fn child(&self, mode: &str, input: &Value) -> i32 {
         if mode != "case" {
